@@ -22,8 +22,15 @@ From PV Require Import Base.Tac PTG.PTGDefs PTG.Engine PTG.EngineProofs PTG.PTGP
      PTGVal.ValEngine PTGVal.ValEngineProofs PTGVal.PTGValDefs PTGVal.PTGValProofs.
 Import ListNotations.
 
+(* the theorems assume wf_program_fm: C01's wf_program with "exactly one input dependency of a data flow has a
+   true guard" relaxed to "at least one" — the runtime takes the FIRST applicable one (parsec_check_IN_dependencies_*,
+   generated data_lookup), which is what pred_edges / flow_src compute; `<- (k > 0) ? A T(k-1)  <- D(0)` is accepted *)
+Theorem C02_wf_program_implies_fm : forall P, wf_program P = true -> wf_program_fm P = true.
+Proof. exact wf_program_implies_fm. Qed.
+Print Assumptions C02_wf_program_implies_fm.
+
 (* the decision procedure run on every generated program is sound *)
-Theorem C02_safe_check_sound : forall P, wf_program P = true -> safeb P = true -> ptg_Safe P.
+Theorem C02_safe_check_sound : forall P, wf_program_fm P = true -> safeb P = true -> ptg_Safe P.
 Proof. exact safeb_sound. Qed.
 Print Assumptions C02_safe_check_sound.
 
@@ -36,18 +43,18 @@ Print Assumptions C02_dependencies_are_C01.
 
 (* (a), first half: every Begin comes after the End of every predecessor, data and control
    (log most recent first: l1 is the past of this Begin) *)
-Theorem C02_begin_after_predecessors : forall names P, wf_program P = true ->
+Theorem C02_begin_after_predecessors : forall names P, wf_program_fm P = true ->
   forall evs l1 l2 t, log tid (core tid (ptg_vrun names P evs)) = l2 ++ LBegin t :: l1 ->
   forall p, In p (preds P t) -> In (LEnd p) l1.
 Proof.
-  intros names P H evs l1 l2 t. rewrite ptgval_core. apply (ptg_begin_after_preds_ended P H).
+  intros names P H evs l1 l2 t. rewrite ptgval_core. apply (ptgval_begin_after_preds P H).
 Qed.
 Print Assumptions C02_begin_after_predecessors.
 
 (* (a), second half: in every reachable state, a started instance holds in each data flow fed
    by a task the very copy of its producer, the producer is done, and the copy contains the
    value the producer left in it *)
-Theorem C02_started_task_holds_producer_values : forall names P, wf_program P = true -> ptg_Safe P ->
+Theorem C02_started_task_holds_producer_values : forall names P, wf_program_fm P = true -> ptg_Safe P ->
   forall evs t, In t (instances P) -> st tid (core tid (ptg_vrun names P evs)) t = Running ->
   forall g p fp, flow_src P t g = STask p fp ->
     st tid (core tid (ptg_vrun names P evs)) p = Done
@@ -58,28 +65,28 @@ Print Assumptions C02_started_task_holds_producer_values.
 
 (* ... and every flow (fed by a task, by D(k), NEW or NULL) shows the named value for as long
    as the instance runs: nobody else writes its copies meanwhile *)
-Theorem C02_running_task_sees_named_values : forall names P, wf_program P = true -> ptg_Safe P ->
+Theorem C02_running_task_sees_named_values : forall names P, wf_program_fm P = true -> ptg_Safe P ->
   forall evs t g, In t (instances P) -> st tid (core tid (ptg_vrun names P evs)) t = Running ->
   rdval tid (ptg_vrun names P evs) t g = ptg_Vin names P t g.
 Proof. exact ptgval_running_values. Qed.
 Print Assumptions C02_running_task_sees_named_values.
 
 (* what the body of a completed instance has read *)
-Theorem C02_body_reads_named_values : forall names P, wf_program P = true -> ptg_Safe P ->
+Theorem C02_body_reads_named_values : forall names P, wf_program_fm P = true -> ptg_Safe P ->
   forall evs t, In t (instances P) -> st tid (core tid (ptg_vrun names P evs)) t = Done ->
   rlog tid (ptg_vrun names P evs) t = ptg_expected_reads names P t.
 Proof. exact ptgval_observed_reads. Qed.
 Print Assumptions C02_body_reads_named_values.
 
 (* the sequential execution (instances in the topological order, then the copies) is a complete run *)
-Theorem C02_sequential_execution_completes : forall names P, wf_program P = true -> ptg_Safe P ->
+Theorem C02_sequential_execution_completes : forall names P, wf_program_fm P = true -> ptg_Safe P ->
   ptg_complete P (ptg_seq_exec names P).
 Proof. exact ptgval_seq_complete. Qed.
 Print Assumptions C02_sequential_execution_completes.
 
 (* (b) every complete run, whatever its schedule, ends with the memory (collection elements
    and tiles) of the sequential execution *)
-Theorem C02_final_data_equal_sequential : forall names P, wf_program P = true -> ptg_Safe P ->
+Theorem C02_final_data_equal_sequential : forall names P, wf_program_fm P = true -> ptg_Safe P ->
   forall evs, ptg_complete P (ptg_vrun names P evs) ->
   forall c, mem tid (ptg_vrun names P evs) c = mem tid (ptg_seq_exec names P) c.
 Proof. exact ptgval_final_memory. Qed.
@@ -87,14 +94,14 @@ Print Assumptions C02_final_data_equal_sequential.
 
 (* (c) the inputs observed by a task do not depend on the schedule; they are those of the
    sequential execution *)
-Theorem C02_observed_inputs_schedule_independent : forall names P, wf_program P = true -> ptg_Safe P ->
+Theorem C02_observed_inputs_schedule_independent : forall names P, wf_program_fm P = true -> ptg_Safe P ->
   forall evs1 evs2 t, In t (instances P) ->
   st tid (core tid (ptg_vrun names P evs1)) t = Done -> st tid (core tid (ptg_vrun names P evs2)) t = Done ->
   rlog tid (ptg_vrun names P evs1) t = rlog tid (ptg_vrun names P evs2) t.
 Proof. exact ptgval_reads_schedule_independent. Qed.
 Print Assumptions C02_observed_inputs_schedule_independent.
 
-Theorem C02_observed_inputs_equal_sequential : forall names P, wf_program P = true -> ptg_Safe P ->
+Theorem C02_observed_inputs_equal_sequential : forall names P, wf_program_fm P = true -> ptg_Safe P ->
   forall evs t, In t (instances P) -> st tid (core tid (ptg_vrun names P evs)) t = Done ->
   rlog tid (ptg_vrun names P evs) t = rlog tid (ptg_seq_exec names P) t.
 Proof. exact ptgval_reads_sequential. Qed.
@@ -159,7 +166,7 @@ Definition ex_sched : list (vevent tid) :=
    VCopy 1; VE (End (tC 0)); VCopy 0].
 
 Example C02_example :
-  wf_program ex_prog = true /\ safeb ex_prog = true /\ reads_uninit ex_prog = false
+  wf_program ex_prog = true /\ wf_program_fm ex_prog = true /\ safeb ex_prog = true /\ reads_uninit ex_prog = false
   /\ all_done ex_prog (ptg_seq_exec ex_names ex_prog) = true
   /\ all_done ex_prog (ptg_vrun ex_names ex_prog ex_sched) = true
   /\ obs_data (ptg_vrun ex_names ex_prog ex_sched) 6 = obs_data (ptg_seq_exec ex_names ex_prog) 6
@@ -191,3 +198,31 @@ Example C02_unsafe_program_is_rejected_and_schedule_dependent :
   /\ all_done ex_racy (ptg_vrun ex_names ex_racy racy2) = true
   /\ obs_data (ptg_vrun ex_names ex_racy racy1) 1 <> obs_data (ptg_vrun ex_names ex_racy racy2) 1.
 Proof. vm_compute. repeat split; discriminate. Qed.
+
+(* overlapping input guards, first match wins (the usual JDF idiom):
+     S(k) k = 0..2   RW B <- D(3 + k)                      -> B T(k)
+     T(k) k = 0..2   RW A <- (k > 0) ? A T(k-1)   <- D(0)  -> (k < 2) ? A T(k+1)
+                     READ B <- B S(k)
+   wf_program refuses it (two guards hold for k > 0); wf_program_fm accepts it, and T(k) waits for T(k-1). *)
+Definition ex_overlap : program :=
+  {| p_globals := [];
+     p_classes :=
+       [ {| c_locals := [Lrange (Ec 0) (Ec 2) (Ec 1)]; c_params := [0%nat]; c_place := [Ec 0];
+            c_flows := [ {| f_mode := MRW; f_deps := [dep_in (Tmem [Eb Oadd (Ec 3) (El 0)]); dep_out (Ttask 1 1 [Aexp (El 0)])] |} ];
+            c_prio := None; c_count := false |};
+         {| c_locals := [Lrange (Ec 0) (Ec 2) (Ec 1)]; c_params := [0%nat]; c_place := [Ec 0];
+            c_flows := [ {| f_mode := MRW;
+                            f_deps := [ {| d_in := true; d_guard := Some (Eb Ogt (El 0) (Ec 0));
+                                           d_then := Ttask 1 0 [Aexp (Eb Osub (El 0) (Ec 1))]; d_else := None |};
+                                        dep_in (Tmem [Ec 0]);
+                                        {| d_in := false; d_guard := Some (Eb Olt (El 0) (Ec 2));
+                                           d_then := Ttask 1 0 [Aexp (Eb Oadd (El 0) (Ec 1))]; d_else := None |} ] |};
+                         {| f_mode := MRead; f_deps := [dep_in (Ttask 0 0 [Aexp (El 0)])] |} ];
+            c_prio := None; c_count := false |} ] |}.
+Example C02_overlapping_guards_first_match :
+  wf_program ex_overlap = false /\ wf_program_fm ex_overlap = true /\ safeb ex_overlap = true
+  /\ preds ex_overlap (1%nat, [2%Z]) = [(1%nat, [1%Z]); (0%nat, [2%Z])]
+  /\ flow_src ex_overlap (1%nat, [2%Z]) 0 = STask (1%nat, [1%Z]) 0
+  /\ flow_src ex_overlap (1%nat, [0%Z]) 0 = SMem 0%Z
+  /\ all_done ex_overlap (ptg_seq_exec ex_names ex_overlap) = true.
+Proof. vm_compute. repeat split. Qed.
